@@ -272,10 +272,10 @@ LexFrom(line, i, toks, ranges) ==
 
 Tokenize(line, skip) == LexFrom(line, skip, <<>>, <<>>)
 
-\* TokenizationError::string_range(len)
-ErrRange(lx, len) ==
-    CASE lx.err = "illegal_character" -> <<lx.ea, lx.ea + 1>>
-      [] lx.err = "unterminated_string" -> <<lx.ea, len>>
+\* The part of the line a tokenization error is about (never splitting a character).
+ErrRange(lx, line) ==
+    CASE lx.err = "illegal_character" -> <<lx.ea, lx.ea + Utf8Width(line[lx.ea + 1])>>
+      [] lx.err = "unterminated_string" -> <<lx.ea, Len(line)>>
       [] lx.err = "invalid_number" -> <<lx.ea, lx.eb>>
       [] OTHER -> <<0, 0>>
 
